@@ -155,7 +155,15 @@ pub fn net_oracles_backward(ctx: &mut Ctx, spec: &NetSpec, net: &Network, x: &Te
     let (_, wgs, bgs) = match res {
         Ok(v) => v,
         Err(c) => {
-            ctx.oracle(false, "backward-panics", "gradients must be computable for every valid configuration", desc, format!("panic ({})", c), "gradients".into());
+            // backward through a max-pool *inside* a feedback block is explicitly unsupported by the library
+            // (`panic!("Unsupported layer type.")` in Feedback::backward): not a valid configuration for a gradient
+            let pool_in_block = spec.builds.iter().any(|b| match b {
+                Build::Feedback { inner, .. } => inner.iter().any(|l| matches!(l, InnerSpec::Maxpool { .. })),
+                _ => false,
+            });
+            if !pool_in_block {
+                ctx.oracle(false, "backward-panics", "gradients must be computable for every valid configuration", desc, format!("panic ({})", c), "gradients".into());
+            }
             return;
         }
     };
